@@ -15,6 +15,7 @@ EXPLANATION = ("provenance, clamp-before-cast, layout and table rules against RF
 ASSUMPTIONS = ["not decided: rfc_decode(serialise(build(c))) = expected(c) end to end; variable-length options (DNSSL, captive portal) "
                "are checked for their padding loops only",
                "the SourceLLAddr length is ceil(len/8) instead of ceil((len+2)/8): right only for 6-octet addresses (observed, DESIGN.md 7.1)"]
+EXPLANATION += "; also: tri-state settings go through from_option; appends to a length-counted option buffer stand under buffer + addition <= 254*8; the loader's narrowing casts (C19.V6) are evaluated here too"
 EXTRA_CONFIGS = ["radv"]
 
 WIDTH = {"u8": 1, "u16": 2, "u32": 4, "&std::net::Ipv6Addr": 16}
